@@ -338,3 +338,136 @@ def _quiet(e: ast.AST) -> bool:
             if not (isinstance(f, ast.Attribute) and f.attr in ("get", "lower", "upper", "decode", "encode", "raw_items", "items", "keys", "values")):
                 return False
     return True
+
+
+# ---------------------------------------------------------------------------------------------------------------------------
+# Objects of NEW plain helper classes that never escape their holder (a field of the owning object, or a local) are dissolved:
+#     self._deadline = _Deadline(expiry)          ->   self._deadline__expiry = expiry; self._deadline__expire_at = None
+#     self._deadline.expire_at = None             ->   self._deadline__expire_at = None
+# (the helper's methods have been inlined at their call sites before - `self` became the holder expression -, so only field
+# accesses are left).  The pass refuses when the object is used as a whole anywhere: passed on, returned, compared, stored twice.
+def _simple_init(c: ast.ClassDef) -> T.Any:
+    if c.decorator_list or any(ast.unparse(b) != "object" for b in c.bases):
+        return None
+    init = next((m for m in c.body if isinstance(m, FUNC_KINDS) and m.name == "__init__"), None)
+    if init is None or isinstance(init, ast.AsyncFunctionDef) or init.args.vararg or init.args.kwarg or init.decorator_list:
+        return None
+    for st in init.body:
+        if isinstance(st, ast.Expr) and isinstance(st.value, ast.Constant):
+            continue
+        tg = st.targets if isinstance(st, ast.Assign) else [st.target] if isinstance(st, ast.AnnAssign) and st.value is not None else None
+        if tg is None or not all(isinstance(t, ast.Attribute) and isinstance(t.value, ast.Name) and t.value.id == "self" for t in tg):
+            return None
+        if any(isinstance(x, (ast.Await, ast.Yield, ast.Lambda)) for x in ast.walk(st)):
+            return None
+    if any(isinstance(m, FUNC_KINDS) and m.name.startswith("__") and m.name != "__init__" for m in c.body):
+        return None
+    return init
+
+
+def dissolve_objects(trees: dict[str, ast.Module], known_classes: dict[str, set[str] | None]) -> dict[str, list[str]]:
+    from .inline import _expand
+
+    notes: dict[str, list[str]] = {rel: [] for rel in trees}
+    every_known = {n for known in known_classes.values() for n in (known or ())}
+    serial = 0
+    for rel, tree in trees.items():
+        known = known_classes.get(rel)
+        if known is None:
+            continue
+        classes = {c.name: c for c in tree.body if isinstance(c, ast.ClassDef) and c.name not in known and c.name not in every_known and _simple_init(c) is not None}
+        if not classes:
+            continue
+        parent: dict[int, ast.AST] = {}
+        for n in ast.walk(tree):
+            for ch in ast.iter_child_nodes(n):
+                parent[id(ch)] = n
+        for cname, c in classes.items():
+            init = _simple_init(c)
+            init._in_class = True  # type: ignore[attr-defined]
+            fields = {t.attr for st in init.body for t in (st.targets if isinstance(st, ast.Assign) else [st.target] if isinstance(st, ast.AnnAssign) else []) if isinstance(t, ast.Attribute)}
+            ctor_calls = [n for n in ast.walk(tree) if isinstance(n, ast.Call) and isinstance(n.func, ast.Name) and n.func.id == cname]
+            other_refs = [n for n in ast.walk(tree) if isinstance(n, ast.Name) and n.id == cname and not any(cc.func is n for cc in ctor_calls)]
+            if not ctor_calls or any(not isinstance(parent.get(id(parent.get(id(n)))), ast.ClassDef) and isinstance(n.ctx, ast.Load) and not _in_annotation(n, parent) for n in other_refs):
+                continue
+            plans = []
+            ok = True
+            for call in ctor_calls:
+                st = parent.get(id(call))
+                tg = st.targets[0] if isinstance(st, ast.Assign) and len(st.targets) == 1 and st.value is call else st.target if isinstance(st, ast.AnnAssign) and st.value is call else None
+                if isinstance(tg, ast.Attribute) and isinstance(tg.value, ast.Name) and tg.value.id == "self":
+                    F = tg.attr
+                    occ = [n for n in ast.walk(tree) if isinstance(n, ast.Attribute) and n.attr == F]
+                    stores = [n for n in occ if isinstance(n.ctx, (ast.Store, ast.Del))]
+                    uses = [n for n in occ if isinstance(n.ctx, ast.Load)]
+                    if len(stores) != 1 or not all(isinstance(parent.get(id(u)), ast.Attribute) and parent[id(u)].value is u and parent[id(u)].attr in fields for u in uses):  # type: ignore[union-attr]
+                        ok = False
+                        break
+                    plans.append(("field", st, tg, call, F, uses))
+                elif isinstance(tg, ast.Name):
+                    fn = parent.get(id(st))
+                    while fn is not None and not isinstance(fn, FUNC_KINDS):
+                        fn = parent.get(id(fn))
+                    if fn is None:
+                        ok = False
+                        break
+                    v = tg.id
+                    occ = [n for n in _own_nodes(fn) if isinstance(n, ast.Name) and n.id == v]
+                    stores = [n for n in occ if isinstance(n.ctx, (ast.Store, ast.Del))]
+                    uses = [n for n in occ if isinstance(n.ctx, ast.Load)]
+                    if len(stores) != 1 or v in {a.arg for a in fn.args.args + fn.args.kwonlyargs} or \
+                            not all(isinstance(parent.get(id(u)), ast.Attribute) and parent[id(u)].value is u and parent[id(u)].attr in fields for u in uses):  # type: ignore[union-attr]
+                        ok = False
+                        break
+                    plans.append(("local", st, tg, call, v, uses))
+                else:
+                    ok = False
+                    break
+            if not ok:
+                continue
+            for kind, st, tg, call, name, uses in plans:
+                serial += 1
+                recv = ast.copy_location(ast.Attribute(value=ast.Name(id="self", ctx=ast.Load()), attr=name, ctx=ast.Load()), tg) if kind == "field" else ast.copy_location(ast.Name(id=name, ctx=ast.Load()), tg)
+                out = _expand(call, "expr", None, init, recv, 9000 + serial)
+                if out is None:
+                    continue
+                blk = parent.get(id(st))
+                for fld in ("body", "orelse", "finalbody"):
+                    lst = getattr(blk, fld, None)
+                    if isinstance(lst, list) and any(x is st for x in lst):
+                        i = next(k for k, x in enumerate(lst) if x is st)
+                        lst[i:i + 1] = out
+                        break
+                # flatten every access (those of the expanded constructor included)
+                for n in ast.walk(tree):
+                    for fname, val in ast.iter_fields(n):
+                        items = val if isinstance(val, list) else [val]
+                        for k, x in enumerate(items):
+                            if isinstance(x, ast.Attribute) and isinstance(x.value, ast.Attribute) and kind == "field" and x.value.attr == name and x.attr in fields:
+                                new = ast.copy_location(ast.Attribute(value=x.value.value, attr=f"{name}__{x.attr}", ctx=x.ctx), x)
+                            elif isinstance(x, ast.Attribute) and isinstance(x.value, ast.Name) and kind == "local" and x.value.id == name and x.attr in fields:
+                                new = ast.copy_location(ast.Name(id=f"{name}__{x.attr}", ctx=x.ctx), x)
+                            else:
+                                continue
+                            if isinstance(val, list):
+                                val[k] = new
+                            else:
+                                setattr(n, fname, new)
+                notes[rel].append(f"{rel}: object of the new helper class {cname} held in {'self.' if kind == 'field' else ''}{name} dissolved into one {'field' if kind == 'field' else 'local'} per attribute")
+            ast.fix_missing_locations(tree)
+            parent = {}
+            for n in ast.walk(tree):
+                for ch in ast.iter_child_nodes(n):
+                    parent[id(ch)] = n
+    return notes
+
+
+def _in_annotation(n: ast.AST, parent: dict[int, ast.AST]) -> bool:
+    p, ch = parent.get(id(n)), n
+    while p is not None:
+        if isinstance(p, ast.AnnAssign) and p.annotation is ch:
+            return True
+        if isinstance(p, ast.arg) or (isinstance(p, FUNC_KINDS) and p.returns is ch):
+            return True
+        ch, p = p, parent.get(id(p))
+    return False
